@@ -11,12 +11,14 @@ Half == <<1, 1>>
 GEN_Cfgs == [b1 : {D0, Half}, b2 : {D1, Half, <<3, 2>>}, nest : BOOLEAN, mavg : BOOLEAN,
             wd : {D0, <<1, 3>>}, dwd : BOOLEAN, dlr : BOOLEAN, lr : {<<1, 2>>}, lrs : {"const", "lin8"},
             graft : {"NONE", "SGD", "ADAGRAD", "RMSPROP", "RMSPROP_NORMALIZED", "SQRT_N", "ADAGRAD_NORMALIZED"},
-            start : {0, 2}, S : {1, 2}, P : {1, 2, 3}, shard : BOOLEAN, skip : BOOLEAN]
+            start : {0, 2}, S : {1, 2}, P : {1, 2, 3}, shard : BOOLEAN, skip : BOOLEAN,
+            clip : BOOLEAN]   \* clip_by_scaled_gradient_norm on/off: part of the DEFINITION of the RMSProp graft
+                              \* symbol F(s) (interpreted by the harness), not of the coefficient algebra
 \* C05: momentum and weight decay off, so the public update is the pre-momentum update
 C05_Cfgs == [b1 : {D0}, b2 : {D1, <<3, 2>>}, nest : {FALSE}, mavg : {FALSE},
             wd : {D0}, dwd : {FALSE}, dlr : BOOLEAN, lr : {<<1, 0>>, <<1, 2>>}, lrs : {"const", "lin8"},
             graft : {"SGD", "ADAGRAD", "RMSPROP", "RMSPROP_NORMALIZED", "SQRT_N", "ADAGRAD_NORMALIZED"},
-            start : {0, 2, 100}, S : {1, 2}, P : {1, 2}, shard : BOOLEAN, skip : BOOLEAN]
+            start : {0, 2, 100}, S : {1, 2}, P : {1, 2}, shard : BOOLEAN, skip : BOOLEAN, clip : BOOLEAN]
 \* coefficient vector over 0..T as a sequence (index k+1 holds the coefficient of symbol k)
 AsSeq(f) == [k \in 1..(T + 1) |-> f[k - 1]]
 RootJ(r) == AsSeq(r)
